@@ -148,6 +148,9 @@ func (runInfo *runInfoStruct) invokeLetItemExpr(expr *ast.ItemExpr) {
 		return
 	}
 
+	// slot is where the container was read from: when it is addressable (an element, a field) a store
+	// that has to replace the container writes it there, without evaluating expr.Item a second time
+	slot := item
 	if item.Kind() == reflect.Interface && !item.IsNil() {
 		item = item.Elem()
 	}
@@ -156,15 +159,15 @@ func (runInfo *runInfoStruct) invokeLetItemExpr(expr *ast.ItemExpr) {
 
 	// Slice && Array
 	case reflect.Slice, reflect.Array:
-		runInfo.invokeLetItemSlice(expr, item, value)
+		runInfo.invokeLetItemSlice(expr, slot, item, value)
 
 	// Map
 	case reflect.Map:
-		runInfo.invokeLetItemMap(expr, item, value)
+		runInfo.invokeLetItemMap(expr, slot, item, value)
 
 	// String
 	case reflect.String:
-		runInfo.invokeLetItemString(expr, item, value)
+		runInfo.invokeLetItemString(expr, slot, item, value)
 
 	default:
 		runInfo.err = newStringError(expr, "type "+item.Kind().String()+" does not support index operation")
@@ -174,7 +177,7 @@ func (runInfo *runInfoStruct) invokeLetItemExpr(expr *ast.ItemExpr) {
 
 // invokeLetItemSlice assigns a value to a slice or array index.
 // runInfo.rv must hold the index value.
-func (runInfo *runInfoStruct) invokeLetItemSlice(expr *ast.ItemExpr, item reflect.Value, value reflect.Value) {
+func (runInfo *runInfoStruct) invokeLetItemSlice(expr *ast.ItemExpr, slot reflect.Value, item reflect.Value, value reflect.Value) {
 	var index int
 	index, runInfo.err = tryToInt(runInfo.rv)
 	if runInfo.err != nil {
@@ -192,9 +195,13 @@ func (runInfo *runInfoStruct) invokeLetItemSlice(expr *ast.ItemExpr, item reflec
 			return
 		}
 		item = reflect.Append(item, value)
-		runInfo.rv = item
-		runInfo.expr = expr.Item
-		runInfo.invokeLetExpr()
+		if slot.CanSet() && item.Type().AssignableTo(slot.Type()) {
+			slot.Set(item)
+		} else {
+			runInfo.rv = item
+			runInfo.expr = expr.Item
+			runInfo.invokeLetExpr()
+		}
 		runInfo.rv = item.Index(index)
 		return
 	}
@@ -224,7 +231,7 @@ func (runInfo *runInfoStruct) invokeLetItemSlice(expr *ast.ItemExpr, item reflec
 
 // invokeLetItemMap assigns a value to a map index.
 // runInfo.rv must hold the index value.
-func (runInfo *runInfoStruct) invokeLetItemMap(expr *ast.ItemExpr, item reflect.Value, value reflect.Value) {
+func (runInfo *runInfoStruct) invokeLetItemMap(expr *ast.ItemExpr, slot reflect.Value, item reflect.Value, value reflect.Value) {
 	runInfo.rv, runInfo.err = convertReflectValueToType(runInfo.rv, item.Type().Key())
 	if runInfo.err != nil {
 		runInfo.err = newStringError(expr, "index type "+runInfo.rv.Type().String()+" cannot be used for map index type "+item.Type().Key().String())
@@ -250,9 +257,13 @@ func (runInfo *runInfoStruct) invokeLetItemMap(expr *ast.ItemExpr, item reflect.
 		item.SetMapIndex(runInfo.rv, value)
 		mapIndex := runInfo.rv
 		// assign new map
-		runInfo.rv = item
-		runInfo.expr = expr.Item
-		runInfo.invokeLetExpr()
+		if slot.CanSet() && item.Type().AssignableTo(slot.Type()) {
+			slot.Set(item)
+		} else {
+			runInfo.rv = item
+			runInfo.expr = expr.Item
+			runInfo.invokeLetExpr()
+		}
 		runInfo.rv = item.MapIndex(mapIndex)
 		return
 	}
@@ -261,7 +272,7 @@ func (runInfo *runInfoStruct) invokeLetItemMap(expr *ast.ItemExpr, item reflect.
 
 // invokeLetItemString assigns a value to a string index.
 // runInfo.rv must hold the index value.
-func (runInfo *runInfoStruct) invokeLetItemString(expr *ast.ItemExpr, item reflect.Value, value reflect.Value) {
+func (runInfo *runInfoStruct) invokeLetItemString(expr *ast.ItemExpr, slot reflect.Value, item reflect.Value, value reflect.Value) {
 	var index int
 	index, runInfo.err = tryToInt(runInfo.rv)
 	if runInfo.err != nil {
@@ -283,6 +294,10 @@ func (runInfo *runInfoStruct) invokeLetItemString(expr *ast.ItemExpr, item refle
 			item.SetString(item.String() + value.String())
 			return
 		}
+		if slot.CanSet() && item.Type().AssignableTo(slot.Type()) {
+			slot.Set(reflect.ValueOf(item.String() + value.String()))
+			return
+		}
 
 		runInfo.rv = reflect.ValueOf(item.String() + value.String())
 		runInfo.expr = expr.Item
@@ -299,6 +314,11 @@ func (runInfo *runInfoStruct) invokeLetItemString(expr *ast.ItemExpr, item refle
 	if item.CanSet() {
 		item.SetString(item.Slice(0, index).String() + value.String() + item.Slice(index+1, item.Len()).String())
 		runInfo.rv = item
+		return
+	}
+	if slot.CanSet() && item.Type().AssignableTo(slot.Type()) {
+		slot.Set(reflect.ValueOf(item.Slice(0, index).String() + value.String() + item.Slice(index+1, item.Len()).String()))
+		runInfo.rv = slot
 		return
 	}
 
